@@ -4,6 +4,7 @@
 //! `harness replay <what>` replays behaviours emitted by TLC into the real code and compares
 //! `harness record <what>` drives the real code and records traces for TLC to validate
 mod eval;
+mod named;
 mod rng;
 mod strategy;
 mod tree;
@@ -23,6 +24,7 @@ fn main() {
         ["replay", "trunc"] => strategy::replay_trunc(&args),
         ["replay", "dist"] => strategy::replay_dist(&args),
         ["replay", "import"] => strategy::replay_import(&args),
+        ["record", "named"] => named::record(&args),
         other => {
             eprintln!("unknown command {other:?}");
             std::process::exit(2);
